@@ -380,6 +380,8 @@ FormatVerdict(e) ==
               ELSE IF e.s # want THEN "reject:Sprintf"
               ELSE IF Has(e, "appanic") THEN "reject:Append-panic"
               ELSE IF e.ap # e.s THEN "reject:Append(spec)"
+              ELSE IF Has(e, "ap2") /\ (e.ap2 # <<112, 114, 101>> \o e.s \/ e.ap3 # <<112, 114, 101>> \o e.s) THEN "reject:Append(spec)-after-prefix"
+              ELSE IF Has(e, "ap4") /\ e.ap4 # e.s THEN "reject:Append(spec)-small-buffer"
               ELSE "ok"
     [] e.op = "Format" ->
          IF e.verb \notin {cE, cBigE, cF, cG, cBigG} \/ e.prec > 200 \/ e.prec < 0 - 1 THEN "ok"
